@@ -44,22 +44,26 @@ theorem piOut_eq (t d : Str) : piOut t d = ['<', '?'] ++ (t ++ ' ' :: d) ++ ['?'
 
 /-! ### DOCTYPE -/
 
-/-- the literal is well quoted: no `>` outside quotes, every quote closed -/
-def dtScan : Option Char → Str → Bool
+/-- the literal is well quoted: no `>` outside quotes (for an HTML parser: none at all, it ends the
+    declaration at the first `>`), every quote closed -/
+def dtScan (xml : Bool) : Option Char → Str → Bool
   | none, [] => true
   | some _, [] => false
   | none, c :: cs =>
       if c == '>' then false
-      else if c == '"' || c == '\'' then dtScan (some c) cs
-      else dtScan none cs
-  | some q, c :: cs => if c == q then dtScan none cs else dtScan (some q) cs
+      else if c == '"' || c == '\'' then dtScan xml (some c) cs
+      else dtScan xml none cs
+  | some q, c :: cs =>
+      if c == q then dtScan xml none cs
+      else if !xml && c == '>' then false
+      else dtScan xml (some q) cs
 
 def dtMode : Option Char → Mode
   | none => .doctype
   | some q => .doctypeQ q
 
 theorem feed_doctype_body (xml : Bool) (s : Str) : ∀ (qs : Option Char) (st : RSt), st.mode = dtMode qs →
-    dtScan qs s = true → feed xml st s = { st with mode := .doctype, buf := st.buf ++ s } := by
+    dtScan xml qs s = true → feed xml st s = { st with mode := .doctype, buf := st.buf ++ s } := by
   induction s with
   | nil =>
     intro qs st hm h
@@ -95,9 +99,13 @@ theorem feed_doctype_body (xml : Bool) (s : Str) : ∀ (qs : Option Char) (st : 
           simp [step, hm, dtMode, h1]
         rw [feed_cons, s1, ih none _ rfl h]; simp
       · simp only [h1, Bool.false_eq_true, ↓reduceIte] at h
-        have s1 : step xml st c = { st with buf := st.buf ++ [c] } := by
-          simp [step, hm, dtMode, h1]
-        rw [feed_cons, s1, ih (some q) _ (by simp [hm]) h]; simp
+        by_cases h2 : (!xml && c == '>') = true
+        · simp [h2] at h
+        · simp only [h2, Bool.false_eq_true, ↓reduceIte] at h
+          have s1 : step xml st c = { st with buf := st.buf ++ [c] } := by
+            have h2' : (!xml && c == '>') = false := by simpa using h2
+            simp only [step, hm, dtMode, h1, Bool.false_eq_true, ↓reduceIte, h2']
+          rw [feed_cons, s1, ih (some q) _ (by simp [hm]) h]; simp
 
 /-- what stands between `<!DOCTYPE ` and `>` -/
 def doctypeContent (name : Str) (pubid sysid : Option Str) : Str :=
@@ -115,7 +123,7 @@ theorem doctypeOut_eq (n : Str) (p s : Option Str) :
 
 /-- `<!DOCTYPE literal>` and the line feed behind it, read from character data: the literal is
     the token, the line feed starts the following character data -/
-theorem feed_doctype (xml : Bool) (buf : Str) (toks : List Tok) (content : Str) (h : dtScan none content = true) :
+theorem feed_doctype (xml : Bool) (buf : Str) (toks : List Tok) (content : Str) (h : dtScan xml none content = true) :
     feed xml (mk .data buf toks) (['<', '!', 'D', 'O', 'C', 'T', 'Y', 'P', 'E', ' '] ++ content ++ ['>', '\n']) =
       mk .data ['\n'] (.doctype content :: flushToks buf toks) := by
   have s0 : feed xml (mk .data buf toks) ['<', '!', 'D', 'O', 'C', 'T', 'Y', 'P', 'E', ' '] =
